@@ -234,6 +234,48 @@ def load_op(cfg):
                      ",".join(str(x) for x in rn) or "-"] + to_tokens(cfg))
 
 
+def load_op_yaml(cfg, yaml_text):
+    """load op for cfg with a given YAML text (the same configuration with other comments / layout)"""
+    f = load_op(cfg).split(" ")
+    f[1] = vf.hexs(yaml_text.encode())
+    return " ".join(f)
+
+
+def _fnv32(data, h, a):
+    for b in data:
+        if a:
+            h = ((h ^ b) * 16777619) & 0xffffffff
+        else:
+            h = ((h * 16777619) & 0xffffffff) ^ b
+    return h
+
+
+def digest_twin_yaml(cfg_a, cfg_b, kind, tries=90000):
+    """YAML texts of two DIFFERENT configurations made equal under a 32-bit digest of the whole text by a trailing '# rev:'
+    comment on each (birthday search, what a configuration-management stamp would look like).  kind: crc32, adler32, fnv32,
+    fnv32a.  None when no pair is found within the budget."""
+    import zlib
+    ya, yb = to_yaml(cfg_a) + "# rev: ", to_yaml(cfg_b) + "# rev: "
+    if kind in ("crc32", "adler32"):
+        fn = zlib.crc32 if kind == "crc32" else zlib.adler32
+        pa, pb = fn(ya.encode()), fn(yb.encode())
+        dig = lambda pre, suf: fn(suf, pre)
+    else:
+        a = kind == "fnv32a"
+        pa, pb = _fnv32(ya.encode(), 2166136261, a), _fnv32(yb.encode(), 2166136261, a)
+        dig = lambda pre, suf: _fnv32(suf, pre, a)
+    seen = {}
+    for k in range(tries):
+        suf = b"%08x\n" % (k * 2654435761 % 2**32)
+        seen[dig(pa, suf)] = suf
+    for k in range(tries):
+        suf = b"%08x\n" % ((k * 40503 + 12345) * 2246822519 % 2**32)
+        d = dig(pb, suf)
+        if d in seen:
+            return ya + seen[d].decode(), yb + suf.decode()
+    return None
+
+
 def query_op(ty, name):
     return f"Q {ty} {vf.hexs(name)}"
 
